@@ -10,8 +10,26 @@ vars == <<case, rec>>
 
 Ops == {"+", "-", "*", "/", "%", "==", "!=", "<", ">", "<=", ">="}
 
+\* C09: every value kind reaches every operator, index, member access and condition (data vars k1..k16)
+KindVals == <<I(0), I(5), I(-3), IMax(0), IMin(0), F(0, 0), F(5, 1), S(""), S("ab"), B(TRUE), B(FALSE), Nil,
+              A(<<>>), A(<<I(1), I(2)>>), O(<<>>), O(<<[pk |-> "k", pv |-> I(1)]>>)>>
+KName(i) == "k" \o ToString(i)
+KindBind == [i \in 1..Len(KindVals) |-> [n |-> KName(i), v |-> KindVals[i]]]
+KV(i) == Var(KName(i))
+KI == 1..Len(KindVals)
+KindsInfix == {Bin(o, KV(i), KV(j)) : o \in Ops, i \in KI, j \in KI}
+KindsOther == {Pre(p, KV(i)) : p \in {"-", "!"}, i \in KI} \cup {Post(p, KV(i)) : p \in {"++", "--"}, i \in KI}
+              \cup {Idx(KV(i), KV(j)) : i \in KI, j \in KI}
+              \cup {Dot(KV(i), f) : i \in KI, f \in {"k", "zz", "K"}}
+              \cup {Idx(KV(i), l) : i \in KI, l \in {StrL(""), StrL("k"), IntL(0), IntL(9), Pre("-", IntL(1))}}
+              \cup {Tern(KV(i), KV(j), StrL("F")) : i \in KI, j \in {2, 9, 14, 16}}
+              \cup {ArrL(<<KV(i), KV(j)>>) : i \in KI, j \in {1, 12}} \cup {ObjL(<<[key |-> "p", ex |-> KV(i)]>>) : i \in KI}
+              \cup {Dot(ObjL(<<[key |-> "p", ex |-> KV(i)]>>), "p") : i \in KI}
+              \cup {Idx(ArrL(<<KV(i)>>), IntL(0)) : i \in KI}
+
 \* binding sets chosen so that different groupings give different values
-Bind(k) == CASE k = 1 -> <<[n |-> "a", v |-> I(7)], [n |-> "b", v |-> I(2)], [n |-> "c", v |-> I(4)], [n |-> "d", v |-> I(3)]>>
+Bind(k) == CASE k = 0 -> KindBind
+             [] k = 1 -> <<[n |-> "a", v |-> I(7)], [n |-> "b", v |-> I(2)], [n |-> "c", v |-> I(4)], [n |-> "d", v |-> I(3)]>>
              [] k = 2 -> <<[n |-> "a", v |-> I(-9)], [n |-> "b", v |-> I(5)], [n |-> "c", v |-> I(-2)], [n |-> "d", v |-> I(1)]>>
              [] k = 3 -> <<[n |-> "a", v |-> F(5, 1)], [n |-> "b", v |-> F(1, 1)], [n |-> "c", v |-> F(4, 0)], [n |-> "d", v |-> F(-3, 2)]>>
              [] k = 4 -> <<[n |-> "a", v |-> S("x")], [n |-> "b", v |-> S("y")], [n |-> "c", v |-> S("x")], [n |-> "d", v |-> S("")]>>
@@ -67,20 +85,39 @@ Flat3 == {<<W("a"), T("op", o1), W("b"), T("op", o2), W("c"), T("op", o3), W("d"
 FlatLit == {<<T("num", x), T("op", o1), T("num", y), T("op", o2), T("num", z)>> :
               o1 \in Ops, o2 \in Ops, x \in {"7"}, y \in {"2", "0"}, z \in {"4", "2.5"}}
 
+\* C09: absent loop clauses, non-assignment init, directive arguments of every kind: must return (output or error)
+RawAny == {"@for(;;)x@break@end", "@for(i = 0; i < 2;)x@break@end", "@for(i = 0; ; i++)x@break@end", "@for(; false;)x@end",
+           "@for(; k11;)x@end", "@for(i = 0; i < 2; )x@breakIf(true)@end", "@for(k2; false; k2)x@end", "@for(1; false; 1)x@end",
+           "@for(i = 0; i < 1; i++)@end", "@for(i = 0; i < 1; i = i + 1)x@end", "@for(i = k9; false; i++)x@end",
+           "@each(v in k14)@end", "@each(v in k14)@break@end", "@if(k1)@end", "@if(k2)@else@end", "@if(k1)@elseif(k2)@end",
+           "@dump(k1, k9, k12, k14, k16)", "@dump()", "@dump(zz)", "@dump(k16.zz)", "@breakIf(k2)", "@continueIf(k2)", "@break", "@continue",
+           "@insert(\"a\", k2)", "@insert(\"a\")x@end", "@reserve(\"a\")", "@reserve(k2)", "@use(\"nope\")", "@use(k2)",
+           "@component(\"nope\")", "@component(\"nope\", {a: k2})", "@component(k2)", "@slot", "@slot(\"a\")", "@slot(k2)",
+           "@slot x @end", "@end", "@else", "@elseif(k2)", "{{ k2; k9 }}", "{{ ; }}", "{{ k2 = 1 }}", "{{ k2 = \"s\" }}",
+           "{{ loop }}", "{{ loop.index }}", "{{ k16[\"\"] }}", "{{ k16[k8] }}", "{{ k2.k }}", "{{ k9.len.x }}", "{{ k14[k4] }}", "{{ k14[k5] }}",
+           "{{ k14[0][0] }}", "{{ k16.k.k }}", "{{ -k4 }}", "{{ -k5 }}", "{{ k5 - 1 }}", "{{ k4 + 1 }}", "{{ k5 / k3 }}", "{{ k5 % k3 }}",
+           "{{ k4 * k4 }}", "{{ k5 * k3 }}", "{{ k5-- }}", "{{ k4++ }}", "{{ 1.5.5 }}", "{{ 1..2 }}", "{{ 99999999999999999999.5 }}",
+           "{{ k9() }}", "{{ k9.() }}", "{{ k2.k9 }}", "{{ [k1, zz] }}", "{{ {a: zz} }}", "{{ {a} }}", "{{ {k2} }}", "{{ {zz} }}",
+           "{{ k13.zz() }}", "{{ k12.len() }}", "{{ k15.len() }}", "{{ nil.x }}", "{{ nil[0] }}", "{{ true.x }}", "{{ (1).x }}"}
+
 Cases ==
-  CASE Family = "pairs"   -> {[kind |-> "tree", e |-> e, b |-> b, lay |-> l] : e \in Pairs, b \in {1, 2, 3, 4, 5}, l \in {"sp", "tight"}}
+  CASE Family = "raw09" -> {[kind |-> "raw", src |-> r, b |-> 0, lay |-> "sp"] : r \in RawAny}
+    [] Family = "pairs"   -> {[kind |-> "tree", e |-> e, b |-> b, lay |-> l] : e \in Pairs, b \in {1, 2, 3, 4, 5}, l \in {"sp", "tight"}}
     [] Family = "pairsall" -> {[kind |-> "tree", e |-> e, b |-> b, lay |-> l] : e \in Pairs, b \in 1..7, l \in Layouts}
     [] Family = "triples" -> {[kind |-> "tree", e |-> e, b |-> b, lay |-> l] : e \in Triples, b \in {1, 2, 3, 5}, l \in {"sp", "full"}}
     [] Family = "mixed"   -> {[kind |-> "tree", e |-> e, b |-> b, lay |-> l] : e \in Mixed \cup Terns, b \in {1, 2, 3, 6, 7}, l \in {"sp", "tight", "par", "nl"}}
     [] Family = "members" -> {[kind |-> "tree", e |-> e, b |-> 8, lay |-> l] : e \in MemberOps, l \in {"sp", "tight", "par"}}
     [] Family = "faults"  -> {[kind |-> "tree", e |-> e, b |-> b, lay |-> l] : e \in Faults, b \in {1, 3}, l \in {"sp", "nl"}}
     [] Family = "assign"  -> {[kind |-> "assign", e |-> e, b |-> b, lay |-> l] : e \in Pairs \cup Terns \cup Mixed, b \in {1, 3}, l \in {"sp", "tight"}}
+    [] Family = "kindsinfix" -> {[kind |-> "tree", e |-> e, b |-> 0, lay |-> "sp"] : e \in KindsInfix}
+    [] Family = "kindsother" -> {[kind |-> "tree", e |-> e, b |-> 0, lay |-> l] : e \in KindsOther, l \in {"sp", "tight"}}
     [] Family = "flat2"   -> {[kind |-> "toks", ts |-> ts, b |-> b, lay |-> l] : ts \in Flat2 \cup FlatLit, b \in {1, 2, 3, 4, 5, 6, 7}, l \in {"sp", "tight", "wide"}}
     [] Family = "flat3"   -> {[kind |-> "toks", ts |-> ts, b |-> b, lay |-> l] : ts \in Flat3, b \in {1, 2, 5}, l \in {"sp"}}
 
 TreeOf(c) == IF c.kind \in {"tree", "assign"} THEN c.e ELSE Parse(c.ts)
 \* C01: the right-hand side of an assignment is a complete expression
 SrcOf(c) == CASE c.kind = "tree" -> PrintSrc(c.e, c.lay)
+              [] c.kind = "raw" -> c.src
               [] c.kind = "assign" -> Open(c.lay) \o JoinToks(<<T("word", "x"), T("assign", "=")>> \o Toks(c.e), c.lay) \o Close(c.lay)
                                       \o "|{{ x }}"
               [] OTHER -> Open(c.lay) \o JoinToks(c.ts, c.lay) \o Close(c.lay)
@@ -103,10 +140,10 @@ ExpectAssign(v) == IF IsErr(v) THEN [kind |-> "err", why |-> v.why]
                    ELSE IF IsUnspec(v) \/ ~Printable(v) THEN [kind |-> "any"]
                    ELSE [kind |-> "out", out |-> "|" \o Show(v)]
 
-Record(c) == LET t == TreeOf(c)
+Record(c) == LET t == IF c.kind = "raw" THEN NilL ELSE TreeOf(c)
                  v == Ev(t, <<Bind(c.b)>>) IN
              [src |-> SrcOf(c), data |-> EncData(Bind(c.b)),
-              expect |-> IF c.kind = "assign" THEN ExpectAssign(v) ELSE Expect(v),
+              expect |-> IF c.kind = "raw" THEN [kind |-> "any"] ELSE IF c.kind = "assign" THEN ExpectAssign(v) ELSE Expect(v),
               tags |-> <<Family, c.lay>>]
 
 Init == case \in Cases /\ rec = [src |-> ""]
